@@ -103,6 +103,21 @@ func (c *trackedConn) Write(p []byte) (int, error) {
 	return c.Conn.Write(p)
 }
 
+// the optional methods of a TCP connection stay reachable through the wrapper (code that half-closes must find what it finds in production)
+func (c *trackedConn) CloseWrite() error {
+	if cw, ok := c.Conn.(interface{ CloseWrite() error }); ok {
+		return cw.CloseWrite()
+	}
+	return syscall.ENOTSUP
+}
+
+func (c *trackedConn) CloseRead() error {
+	if cr, ok := c.Conn.(interface{ CloseRead() error }); ok {
+		return cr.CloseRead()
+	}
+	return syscall.ENOTSUP
+}
+
 func (c *trackedConn) Close() error {
 	c.once.Do(func() {
 		c.rec.emit(map[string]any{"op": "raw_close", "c": c.id})
@@ -539,11 +554,19 @@ func (s *Scenario) run(kind string, raw net.Conn, id string, o clientOpts) (stri
 		rand.Read(b)
 		b[0] = 0x17
 		c.Write(b)
+		if o.hold != nil {
+			<-o.hold // stays connected without reading or closing
+			return id, nil
+		}
 		raw.SetReadDeadline(time.Now().Add(3 * time.Second))
 		io.Copy(io.Discard, raw)
 		return id, nil
 	case "plainhttp":
 		io.WriteString(c, "GET / HTTP/1.1\r\nHost: x\r\n\r\n")
+		if o.hold != nil {
+			<-o.hold
+			return id, nil
+		}
 		raw.SetReadDeadline(time.Now().Add(3 * time.Second))
 		io.Copy(io.Discard, raw)
 		return id, nil
